@@ -47,9 +47,32 @@ def validate(run, tracefile, module, checked, label, extra_cfg="", timeout=3000)
     return viols, {"lines": int(dm.group(1)), "drift": drift, "counters": counters}, o
 
 
+MC_WORKERS = 4     # the state graphs here are small (chunks of a finite domain); a few workers are as fast as all cores and far less sensitive to load
+
+
+def model_check(run, module, cfg_text, name, timeout=1500, must_hold=True):
+    """(M), same bookkeeping as Run.model_check but with a fixed small number of workers. A violation is a specification bug -> Infra."""
+    d = run.spec_dir("mc-" + name)
+    rc, o = run.tlc(d, module, cfg_text, workers=MC_WORKERS, timeout=timeout)
+    m = re.search(r"(\d[\d,]*) states generated, (\d[\d,]*) distinct states found, (\d[\d,]*) states left", o)
+    gen = int(m.group(1).replace(",", "")) if m else 0
+    dist = int(m.group(2).replace(",", "")) if m else 0
+    left = int(m.group(3).replace(",", "")) if m else -1
+    depth = re.search(r"depth of the complete state graph search is (\d+)", o)
+    ok = "Model checking completed. No error has been found." in o
+    info = {"config": name, "generated": gen, "distinct": dist, "complete": ok and left == 0, "depth": int(depth.group(1)) if depth else None, "expected_to_fail": not must_hold}
+    run.cov["model_runs"].append(info)
+    if must_hold:
+        if not ok:
+            raise Infra("model check of %s failed (specification-level, nothing about the code was observed):\n%s" % (name, tail_errors(o)))
+        run.cov["states"] += dist
+        run.cov["transitions"] += gen
+    return ok, o, info
+
+
 def must_fail(run, module, cfg, name, invariant):
     """Non-vacuity of a model invariant: with the defect switched on in the MODEL, TLC must report the invariant violated."""
-    ok, o, info = run.model_check(module, cfg, name=name, timeout=600, must_hold=False)
+    ok, o, info = model_check(run, module, cfg, name, timeout=600, must_hold=False)
     if ok or ("Invariant %s is violated" % invariant) not in o:
         raise Infra("non-vacuity self-test %s: the model variant does not violate %s" % (name, invariant))
 
@@ -94,8 +117,8 @@ def run_c18(run):
     run.build_harness()
     quick = run.tier == "quick"
     # (M) every notification sequence of length <= 4 over epochs 0..3 for activation epochs 0..3; the same machine over the 32-bit boundaries
-    ok, o1, i1 = run.model_check("Activation", ACT_CFG_SMALL % ("TRUE", "spec"), name="Activation-small", timeout=600)
-    ok, o2, i2 = run.model_check("Activation", ACT_CFG_BOUND % (3 if quick else 4), name="Activation-boundary", timeout=900)
+    ok, o1, i1 = model_check(run, "Activation", ACT_CFG_SMALL % ("TRUE", "spec"), "Activation-small", timeout=600)
+    ok, o2, i2 = model_check(run, "Activation", ACT_CFG_BOUND % (3 if quick else 4), "Activation-boundary", timeout=900)
     if not (i1["complete"] and i2["complete"]):
         raise Infra("the activation model was not explored completely")
     must_fail(run, "Activation", ACT_CFG_SMALL % ("FALSE", "strict"), "Activation-strict", "ActiveIff")
@@ -110,8 +133,8 @@ def run_c18(run):
             f.write(json.dumps(b) + "\n")
     # real containers: generated behaviours, one build per factory configuration, seeded random boundary behaviours, binding scenarios
     trace = os.path.join(run.dir, "activation.ndjson")
-    nbound = 4 if quick else 24
-    st = run.harness(["activation", "-cases", cases, "-out", trace, "-seed", str(run.seed), "-random", "300" if quick else "6000", "-cfgs",
+    nbound = 4 if quick else 72
+    st = run.harness(["activation", "-cases", cases, "-out", trace, "-seed", str(run.seed), "-random", "300" if quick else "20000", "-cfgs",
                       "-bound", str(nbound), "-cross"])
     viols, done, _ = validate(run, trace, "ActivationTrace", P18, "tv-act", ACT_TRACE_CONSTS)
     if done["lines"] != st["lines"]:
@@ -223,7 +246,7 @@ def run_c20(run):
     quick = run.tier == "quick"
     size = "small" if quick else "full"
     # (M) the laws on the transcription over the exhaustive domains + generation of the case tables
-    ok, o, info = run.model_check("HelpersMC", HMC_CFG % (size, "TRUE", "FALSE", HMC_INVS), name="HelpersMC-" + size, timeout=1500)
+    ok, o, info = model_check(run, "HelpersMC", HMC_CFG % (size, "TRUE", "FALSE", HMC_INVS), "HelpersMC-" + size, timeout=1500)
     if not info["complete"]:
         raise Infra("HelpersMC was not explored completely")
     m = re.search(r'<<"CASES", \[(.*?)\]>>', o)
@@ -238,7 +261,7 @@ def run_c20(run):
             raise Infra("generation: missing case table " + f)
     # real functions on every generated row + seeded random rows
     obs = os.path.join(run.dir, "helpers.ndjson")
-    nrand = 500 if quick else 12000
+    nrand = 500 if quick else 40000
     st = run.harness(["helpers", "-cases", ",".join(files), "-out", obs, "-seed", str(run.seed), "-random", str(nrand)])
     want = sum(ncases.values()) + 4 * nrand + 1
     if st["lines"] != want:
@@ -369,3 +392,109 @@ def replay(run, obj):
 
 
 PROPS = {"C18": {"run": run_c18}, "C20": {"run": run_c20}}
+
+
+# =====================================================================================================================
+# binding demonstration (bin/check selftest may call this; also: python3 bin/fam_helpers.py selftest)
+# =====================================================================================================================
+def selftest(run):
+    """Corrupts single fields of tables/traces recorded from the real code; every corruption must be flagged by the (T) pass at the
+    corrupted line with the expected predicate, and the unmodified recording must be accepted. Returns the list of failed expectations."""
+    run.build_harness()
+    failed = []
+
+    def demo(label, module, preds, extra, recorded, corruptions):
+        lines = [json.loads(l) for l in open(recorded)]
+        viols, done, _ = validate(run, recorded, module, preds, "self-%s-base" % label, extra)
+        if viols:
+            failed.append("%s: the unmodified recording is rejected %s" % (label, viols[:3]))
+            return
+        expect = []
+        for what, cond, change, pred in corruptions:
+            idx = next((i for i, r in enumerate(lines) if cond(r) and all(i + 1 != e[0] for e in expect)), None)
+            if idx is None:
+                failed.append("%s/%s: no suitable line recorded" % (label, what))
+                continue
+            change(lines[idx])
+            expect.append((idx + 1, pred, what))
+        bad = os.path.join(run.dir, "self-%s-corrupted.ndjson" % label)
+        with open(bad, "w") as f:
+            for r in lines:
+                f.write(json.dumps(r) + "\n")
+        viols, done, _ = validate(run, bad, module, preds, "self-%s-corrupted" % label, extra)
+        got = set(viols)
+        for line, pred, what in expect:
+            ok = (line, pred) in got
+            print("selftest binding %s: %-32s line %-5d %s %s" % (label, what, line, pred, "flagged" if ok else "NOT FLAGGED"))
+            if not ok:
+                failed.append("%s/%s" % (label, what))
+        stray = {l for l, _ in got} - {l for l, _, _ in expect}
+        if stray:
+            failed.append("%s: lines flagged that were not corrupted: %s" % (label, sorted(stray)[:5]))
+
+    # ---- C20
+    cases = os.path.join(run.dir, "self-cases.ndjson")
+    ids = [[], [255], [255, 255], [0]]
+    with open(cases, "w") as f:
+        for r in ([{"k": "bytes", "b": [5, 2]}, {"k": "bytes", "b": [255, 255]}, {"k": "bytes", "b": [1]}, {"k": "enc", "m": [True, False, True]},
+                   {"k": "addr", "s": [255] * 32, "ids": ids}, {"k": "addr", "s": [0] * 9 + [1] + [0] * 19 + [2, 255, 255], "ids": ids},
+                   {"k": "sub", "x": [0, 0, 0, 1], "y": [0, 0, 0, 2]}, {"k": "sub", "x": [0, 0, 1, 0], "y": [0, 0, 0, 2]}]):
+            f.write(json.dumps(r) + "\n")
+    obs = os.path.join(run.dir, "self-helpers.ndjson")
+    run.harness(["helpers", "-cases", cases, "-out", obs, "-seed", "7", "-random", "150"])
+
+    def setf(path, val):
+        def ch(r):
+            for k in path[:-1]:
+                r = r[k]
+            r[path[-1]] = val(r[path[-1]]) if callable(val) else val
+        return ch
+    demo("C20", "HelpersTrace", P20, "", obs, [
+        ("encoding of a decoded pair", lambda r: r["k"] == "bytes" and r["b"] == [5, 2], setf(["ce"], [1, 2]), "P20_EncodeDecode"),
+        ("decoding of an encoded value", lambda r: r["k"] == "enc", setf(["cb"], [True, True, True]), "P20_DecodeEncode"),
+        ("wrong length decodes to a flag", lambda r: r["k"] == "bytes" and len(r["b"]) == 1, setf(["ud"], True), "P20_WrongLength"),
+        ("a classifier panicked", lambda r: r["k"] == "addr" and len(r["s"]) == 7, setf(["res"], "panic"), "P20_AddrTotal"),
+        ("metachain contract but no contract", lambda r: r["k"] == "addr" and any(r["scm"]), setf(["sc"], False), "P20_AddrConsistent"),
+        ("system account not recognised", lambda r: r["k"] == "addr" and r["s"] == [255] * 32, setf(["sys"], False), "P20_AddrNamed"),
+        ("contract verdict flipped", lambda r: r["k"] == "addr" and r["sc"] and len(r["s"]) > 32, setf(["sc"], False), "P20_AddrDocumented"),
+        ("merged delta off by one", lambda r: r["k"] == "merge" and r["o1"]["delta"]["q"] > -1000, setf(["o1", "delta", "q"], lambda q: q + 1), "P20_MergeDelta"),
+        ("merged nonce lowered", lambda r: r["k"] == "merge" and r["o2"]["nonce"] != [0, 0, 0, 0], setf(["o2", "nonce"], [0, 0, 0, 0]), "P20_MergeNonce"),
+        ("a storage update lost", lambda r: r["k"] == "merge" and len(r["o1"]["su"]["e"]) > 0, setf(["o1", "su", "e"], lambda e: e[1:]), "P20_MergeStorage"),
+        ("a transfer appended twice", lambda r: r["k"] == "merge" and len(r["o1"]["tr"]) > 0, setf(["o1", "tr"], lambda t: t + t[-1:]), "P20_MergeTransfers"),
+        ("merged-in account changed later", lambda r: r["k"] == "merge", setf(["aSame2"], False), "P20_MergeNoMutation"),
+        ("underflow not reported", lambda r: r["k"] == "sub" and r["err"], setf(["err"], False), "P20_SafeSub"),
+        ("difference off by a borrow", lambda r: r["k"] == "sub" and r["x"] == [0, 0, 1, 0] and not r["err"], setf(["v"], [0, 0, 1, 65534]), "P20_SafeSub"),
+    ])
+    # ---- C18
+    trace = os.path.join(run.dir, "self-activation.ndjson")
+    run.harness(["activation", "-out", trace, "-seed", "7", "-random", "60", "-bound", "1"])
+
+    def flip(name):
+        def ch(r):
+            for x in r["fns"]:
+                if x["n"] == name:
+                    x["a"] = not x["a"]
+        return ch
+    gated_on = lambda r: r["k"] == "confirm" and any(x["a"] for x in r["fns"] if x["n"] == "MultiESDTNFTTransfer")
+    demo("C18", "ActivationTrace", P18, ACT_TRACE_CONSTS, trace, [
+        ("gated function reported inactive", gated_on, flip("MultiESDTNFTTransfer"), "P18_ActiveIff"),
+        ("gated function active before any epoch", lambda r: r["k"] == "build", flip("ESDTNFTAddURI"), "P18_ActiveIff"),
+        ("ungated function reported inactive", lambda r: r["k"] == "confirm", flip("ESDTTransfer"), "P18_ActiveIff"),
+        ("a key missing", lambda r: r["k"] == "confirm", setf(["keys"], lambda k: [x for x in k if x != "ESDTWipe"]), "P18_Registry"),
+        ("an extra key", lambda r: r["k"] == "build", setf(["keys"], lambda k: sorted(k + ["ESDTFoo"])), "P18_Registry"),
+        ("Len() disagrees", lambda r: r["k"] == "confirm", setf(["len"], 22), "P18_Registry"),
+        ("unfreeze left the flag set", lambda r: r["k"] == "bound" and r["name"] == "ESDTUnFreeze", setf(["post"], lambda p: sorted(p + ["w.acct.u0a.esdt.'GFRZ-02'.frozen=true"])), "P18_Bound"),
+        ("mint changed the balance by 3", lambda r: r["k"] == "bound" and r["name"] == "ESDTLocalMint",
+         setf(["post"], lambda p: [x.replace("'FUNG-01'.val=12", "'FUNG-01'.val=13") for x in p]), "P18_Bound"),
+        ("a scenario call failed", lambda r: r["k"] == "bound" and r["name"] == "SaveKeyValue", setf(["res"], "err"), "P18_Bound"),
+    ])
+    return failed
+
+
+if __name__ == "__main__":
+    import sys, time
+    if sys.argv[1:2] == ["selftest"]:
+        r = Run("C20", "selftest", 0)
+        f = selftest(r)
+        print("SELFTEST FAILED: %s" % f if f else "SELFTEST OK (helpers family)")
+        sys.exit(2 if f else 0)
